@@ -118,9 +118,10 @@ type usagePair struct {
 
 // updateUsageQueue zeroes the accumulated usage all ActiveUsers valve and put the usage data im usageUpdateQueue
 func (panel *userPanel) updateUsageQueue() {
-	panel.activeUsersM.Lock()
-	verifhook.Point("panel.updateUsageQueue.mid")
+	// lock order: usageUpdateQueueM before activeUsersM, as in commitUpdate
 	panel.usageUpdateQueueM.Lock()
+	verifhook.Point("panel.updateUsageQueue.mid")
+	panel.activeUsersM.Lock()
 	for _, user := range panel.activeUsers {
 		if user.bypass {
 			continue
